@@ -392,7 +392,7 @@ fn base_scenario(shape: u64) -> Scenario {
     Scenario {
         seed: 7,
         server,
-        clients: vec![ClientCfg { endpoint: client, conn: ConnScript { streams: vec![stream], close_code: Some(0) } }],
+        clients: vec![ClientCfg { endpoint: client, conn: ConnScript { streams: vec![stream], close_code: Some(0), datagrams: vec![] } }],
         net: NetCfg::default(),
         cap_ms: 8_000,
         strays: vec![],
